@@ -119,12 +119,10 @@ class MarkerExpression(SingleMarker):
             ):
                 for _ in range(2 - dot_num):
                     pkg_version += ".0"
-                # the padded operand spells the bound differently: let the specifier
-                # be derived from the marker's own text, like for a parsed marker
-                return MarkerExpression(name, pkg_spec.operator, pkg_version)
-            return MarkerExpression(
-                name, pkg_spec.operator, pkg_version, _specifier=specifier
-            )
+            # Let the specifier be derived from the marker's own text, like for a parsed
+            # marker: the given one may spell its bounds differently (or remember another
+            # source text), and markers that compare equal must behave the same.
+            return MarkerExpression(name, pkg_spec.operator, pkg_version)
         assert isinstance(specifier, GenericSpecifier)
         return MarkerExpression(
             name, specifier.op, specifier.value, _specifier=specifier
